@@ -73,7 +73,9 @@ def check_concat(case):
     st = package(spec)
     names = st.names()
     sel = names[lo:hi + 1]
-    fields = {'a': [], 'x': ['b', 'c']} if mapping == 'merge' else {'a': []}
+    fields = {'merge': {'a': [], 'x': ['b', 'c']}, 'a-only': {'a': []},
+              # the target 'a' lists another source column AND is itself a column of the selected resources
+              'self+other': {'a': ['d'], 'b': ['c']}}[mapping]
     label = 'concatenate(%r, resources=%r) on package %r' % (fields, sel, spec)
     fm = {}
     for t, srcs in fields.items():
@@ -127,6 +129,37 @@ def check_duplicate(case):
         if out.desc['resources'][ci]['schema'] != st.desc['resources'][idx]['schema']:
             v.append(('schema/duplicate', '%s: the copy\'s schema differs from the original\'s' % label))
     return v, 'ok' if not v else 'violated', len(st.rows[idx]) > 0
+
+
+def check_dup_then(case):
+    """duplicate, then a schema-editing step restricted to ONE of the two: the other must not change."""
+    spec, idx, to_end, which = case['pkg'], case['idx'], case['to_end'], case['which']
+    st = package(spec)
+    names = st.names()
+    src = names[idx]
+    target = src + '_copy' if which == 'copy' else src
+    first = SCHEMAS[spec[idx][0]][0][0]
+    label = 'duplicate(%r, duplicate_to_end=%s) then delete_fields([%r], resources=%r) on package %r' % (src, to_end, first, target, spec)
+    kind, out = run_step(st, core.dataflows.duplicate(src, duplicate_to_end=to_end),
+                         core.dataflows.delete_fields([first], resources=target, regex=False))
+    if kind == 'exc':
+        return [('raises/duplicate-then', '%s raises %s: %s' % (label, core.exc_sig(out), str(out)[:100]))], 'violated', True
+    if to_end:
+        exp_names = names + [src + '_copy']
+        exp_rows = st.rows + [st.rows[idx]]
+    else:
+        exp_names = names[:idx + 1] + [src + '_copy'] + names[idx + 1:]
+        exp_rows = st.rows[:idx + 1] + [st.rows[idx]] + st.rows[idx + 1:]
+    exp_rows = [list(r) for r in exp_rows]
+    ti = exp_names.index(target)
+    exp_rows[ti] = [{k: v for k, v in r.items() if k != first} for r in exp_rows[ti]]
+    exp_fields = []
+    for n in exp_names:
+        base = n[:-5] if n.endswith('_copy') else n
+        fl = [f[0] for f in SCHEMAS[spec[names.index(base)][0]]]
+        exp_fields.append([f for f in fl if not (n == target and f == first)])
+    v = compare(label, 'duplicate-then', out, exp_names, exp_rows, exp_fields)
+    return v, 'ok' if not v else 'violated', True
 
 
 def check_delete(case):
@@ -235,12 +268,17 @@ def cases(tier):
                 continue
             for lo in range(n):
                 for hi in range(lo, n):
-                    for mp in ('merge', 'a-only'):
+                    for mp in ('merge', 'a-only', 'self+other'):
                         if n <= 3 or mp == 'merge':
                             out.append({'proc': 'concat', 'pkg': spec, 'lo': lo, 'hi': hi, 'mapping': mp})
             for idx in range(n):
                 for to_end in (False, True):
                     out.append({'proc': 'duplicate', 'pkg': spec, 'idx': idx, 'to_end': to_end, 'batch': 1000 if (idx + n) % 3 else 1 + (idx % 2)})
+            if n <= 2 or tier == 'thorough':
+                for idx in range(n):
+                    for to_end in (False, True):
+                        for which in ('copy', 'original'):
+                            out.append({'proc': 'dup_then', 'pkg': spec, 'idx': idx, 'to_end': to_end, 'which': which})
             sels = ['r0', ['r0', 'r%d' % (n - 1)], n - 1, -1, 'r[01]', [], 'r.*']
             for sel in sels:
                 out.append({'proc': 'delete', 'pkg': spec, 'sel': sel})
